@@ -1,4 +1,4 @@
-package main
+package gen2
 
 // C04, HTTP level.
 //
@@ -29,7 +29,8 @@ import (
 	"verifh/ev"
 	"verifh/model"
 	"verifh/refcodec"
-	"verifh/rig"
+	rig "verifh/rig"
+	all "verifh/gen/all"
 )
 
 type rawResponse struct {
@@ -118,13 +119,21 @@ var hostileBodies = []string{"", "[]", `"x"`, "1", "null", "true", "{", "}", `{"
 	`{"entities":{"(a:":{}}}`, `{"patch":1}`, `{"patch":{"$set":1}}`, `{"patch":{"$delete":1}}`, `{"patch":{"$delete":[1]}}`, `{"patch":{"$set":{"$set":1}}}`, `{"patch":{"x":{"$set":[]}}}`, `{"$set":{}}`, `{"a":{"a":{"a":{"a":{"a":{"a":{}}}}}}}`,
 	strings.Repeat("[", 5000), strings.Repeat(`{"a":`, 5000), `{"a":"\ud800"}`, `{"a":"\u00"}`, "\xff\xfe", `{"a":1}{"b":2}`, `{"a":1} x`, "\x00", `{"a":1e999}`, `{"a":-}`, `{"a":01}`}
 
-func httpLevel(run *ev.Run, ks *bridge.Set, rng *rand.Rand) {
+// HTTPLevel runs the HTTP-level monitor on the kitchen-sink bindings of this generation.
+func HTTPLevel(run *ev.Run, rng *rand.Rand) {
+	var ks *bridge.Set
+	for _, s := range all.Sets {
+		if s.Name == "ks" {
+			ks = s
+		}
+	}
+	if ks == nil {
+		run.Inconclusive(GENERATION + ": kitchen sink bindings missing")
+		return
+	}
 	for _, mounting := range []string{"bare", "mux", "prefixed"} {
 		httpMounting(run, ks, rng, mounting)
 	}
-	run.Require("http.server.requests", 1000)
-	run.Require("http.server.malformed_rejected", 100)
-	run.Require("http.client.responses", 500)
 }
 
 func httpMounting(run *ev.Run, ks *bridge.Set, rng *rand.Rand, mounting string) {
@@ -197,7 +206,7 @@ func httpMounting(run *ev.Run, ks *bridge.Set, rng *rand.Rand, mounting string) 
 			}
 		}
 	}
-	run.Count("http.captured_valid_exchanges", len(caps))
+	run.Count(GENERATION+".http.captured_valid_exchanges", len(caps))
 	serverSide(run, srv, caps, rng, mounting, harnessFault, &mu)
 	clientSide(run, ks, srv, caps, rng, mounting)
 }
@@ -406,18 +415,18 @@ func serverSide(run *ev.Run, srv *rig.Server, caps []*capture, rng *rand.Rand, m
 				resp := rawSend(srv.Addr, j.mu.method, j.mu.target, hdr, j.mu.body)
 				obs := srv.Take(j.id)
 				run.Eval(1)
-				run.Count("http.server.requests", 1)
+				run.Count(GENERATION+".http.server.requests", 1)
 				mu.Lock()
 				fault := harnessFault[j.id]
 				mu.Unlock()
-				desc := map[string]any{"generation": "v2", "mounting": mounting, "method": j.c.res.Namespace + "." + j.c.m.Name, "mutation": j.mu.class, "request": j.mu.method + " " + trunc(j.mu.target),
+				desc := map[string]any{"generation": GENERATION, "mounting": mounting, "method": j.c.res.Namespace + "." + j.c.m.Name, "mutation": j.mu.class, "request": j.mu.method + " " + trunc(j.mu.target),
 					"request_body": trunc(j.mu.body), "status": resp.status, "response_body": trunc(resp.body), "transport_error": resp.err, "invocations": len(obs), "valid_request": j.c.wire.Method + " " + trunc(j.c.wire.Target)}
 				sig := func(what string) string {
 					class := j.mu.class
 					if i := strings.IndexAny(class, ":"); i >= 0 && !strings.HasPrefix(class, "header:X-Restli-Method") {
 						class = class[:i]
 					}
-					return fmt.Sprintf("v2/http-server/%s/%s/%s", what, j.c.kind, class)
+					return fmt.Sprintf(GENERATION+"/http-server/%s/%s/%s", what, j.c.kind, class)
 				}
 				if fault != "" || strings.Contains(resp.body, "rig: ") {
 					run.Count("observed_only.harness_could_not_script_outcome", 1)
@@ -444,13 +453,13 @@ func serverSide(run *ev.Run, srv *rig.Server, caps []*capture, rng *rand.Rand, m
 					run.Violation(sig("malformed-request-not-4xx"), desc)
 				default:
 					if j.mu.malformed != "" {
-						run.Count("http.server.malformed_rejected", 1)
+						run.Count(GENERATION+".http.server.malformed_rejected", 1)
 						if n := atomic.AddInt64(&sampleTick, 1); n%397 == 1 {
 							desc["malformed_because"] = j.mu.malformed
 							run.Sample(desc)
 						}
 					}
-					run.Distinct("http-server|" + j.c.kind + "|" + strings.SplitN(j.mu.class, ":", 2)[0] + "|" + statusClass(resp.status))
+					run.Distinct(GENERATION+"|http-server|" + j.c.kind + "|" + strings.SplitN(j.mu.class, ":", 2)[0] + "|" + statusClass(resp.status))
 				}
 			}
 		}()
@@ -461,7 +470,7 @@ func serverSide(run *ev.Run, srv *rig.Server, caps []*capture, rng *rand.Rand, m
 	close(ch)
 	wg.Wait()
 	if log := srv.TakeErrLog(); strings.Contains(log, "panic serving") {
-		run.Violation("v2/http-server/panic-serving-in-server-log/"+mounting, map[string]any{"server_log": trunc(log)})
+		run.Violation(GENERATION+"/http-server/panic-serving-in-server-log/"+mounting, map[string]any{"server_log": trunc(log)})
 	}
 }
 
@@ -571,13 +580,13 @@ func clientSide(run *ev.Run, ks *bridge.Set, srv *rig.Server, caps []*capture, r
 			id := fmt.Sprintf("c04c-%d", n)
 			out, _, err := cl.Invoke(c.res, c.m, c.call, id)
 			run.Eval(1)
-			run.Count("http.client.responses", 1)
+			run.Count(GENERATION+".http.client.responses", 1)
 			class := mu.class
 			if strings.HasPrefix(class, "status-") {
 				class = "status+error-header"
 			}
 			if out != nil && out.Err != nil && out.Err.Kind == "PANIC-IN-CALLER" {
-				run.Violation(fmt.Sprintf("v2/http-client/panic-in-caller/%s/%s", c.kind, class), map[string]any{"generation": "v2", "method": c.res.Namespace + "." + c.m.Name, "mutation": mu.class,
+				run.Violation(fmt.Sprintf(GENERATION+"/http-client/panic-in-caller/%s/%s", c.kind, class), map[string]any{"generation": GENERATION, "method": c.res.Namespace + "." + c.m.Name, "mutation": mu.class,
 					"response_status": mu.status, "response_header": mu.header, "response_body": trunc(mu.body), "panic": trunc(out.Err.Text)})
 				continue
 			}
@@ -588,7 +597,7 @@ func clientSide(run *ev.Run, ks *bridge.Set, srv *rig.Server, caps []*capture, r
 			if out != nil && out.Err != nil {
 				outcome = "error"
 			}
-			run.Distinct("http-client|" + c.kind + "|" + class + "|" + outcome)
+			run.Distinct(GENERATION+"|http-client|" + c.kind + "|" + class + "|" + outcome)
 		}
 	}
 }
@@ -665,4 +674,13 @@ func certainlyMalformedJSON(b string) string {
 		return "document ends inside a string, object or array"
 	}
 	return ""
+}
+
+var sampleTick int64
+
+func trunc(s string) string {
+	if len(s) > 400 {
+		return s[:400] + fmt.Sprintf("...(%d bytes)", len(s))
+	}
+	return s
 }
